@@ -410,7 +410,7 @@ def check_C12(chk):
             g.append(f"hmreinit id=g{gi}-ri obj={o} k={ks}")
         pos, k_ = 0, 0
         while pos < ml:
-            sz = min(ml - pos, r.choice([1, 3, 5, 13, 16, 17, 27, 40]))
+            sz = min(ml - pos, r.choice([1, 3, 5, 13, 16, 17, 27, 40, 150]))
             g.append(f"hmupdate id=g{gi}-u{k_} obj={o} d={hx(m[pos:pos + sz])}")
             pos += sz; k_ += 1
         if gi % 4 == 0:
@@ -443,7 +443,7 @@ def check_C13(chk):
     grid = tlc_plan(chk.wd, 'Plan_Hash', dict(FAMILY='hkdfgrid', TIER=chk.tier))
     grid.sort(key=lambda g: json.dumps(g, sort_keys=True))
     if not chk.thorough:
-        grid = [g for i, g in enumerate(grid) if i % 2 == 0]
+        grid = [g for i, g in enumerate(grid) if i % 3 == 0]
     g = []
     for gi, s in enumerate(grid):
         salt = r.bytes(s['slen']) if s['slen'] else None
@@ -522,7 +522,7 @@ def check_C14(chk):
     grid = tlc_plan(chk.wd, 'Plan_Hash', dict(FAMILY='pbgrid', TIER=chk.tier))
     grid.sort(key=lambda g: json.dumps(g, sort_keys=True))
     if not chk.thorough:
-        grid = [g for i, g in enumerate(grid) if i % 2 == 0]
+        grid = [g for i, g in enumerate(grid) if i % 3 == 0]
     r = Rng(chk.seed ^ 0xC14)
     lines = []
     for gi, s in enumerate(grid):
